@@ -520,6 +520,16 @@ func extraMenu3() []callT {
 		{"Map(empty map, k required)", func() []interface{} {
 			return []interface{}{map[string]string{}, valid.RM{"k": "required|need-k"}}
 		}, func(a []interface{}) (string, []string) { return errText(valid.Map(a[0], a[1].(valid.RM))), nil }, nil},
+		{"Var(malformed to=7)", func() []interface{} { return []interface{}{"abc", []string{"to=7"}} },
+			func(a []interface{}) (string, []string) { return errText(valid.Var(a[0], a[1].([]string)...)), nil }, nil},
+		{"Var(malformed oto=7)", func() []interface{} { return []interface{}{"abc", []string{"oto=7"}} },
+			func(a []interface{}) (string, []string) { return errText(valid.Var(a[0], a[1].([]string)...)), nil }, nil},
+		{"UrlForFn(url with k, function under a rule name of its own)", func() []interface{} { return []interface{}{"http://h/p?k=abc&j="} },
+			func(a []interface{}) (string, []string) { return errText(valid.UrlForFn(a[0], "k", zzFn)), nil }, nil},
+		{"NewVMap().Valid(map) without rules", func() []interface{} { return []interface{}{map[string]string{"k": "", "j": "abc"}} },
+			func(a []interface{}) (string, []string) { return errText(valid.NewVMap().Valid(a[0])), nil }, nil},
+		{"NewVUrl().Valid(url) without rules", func() []interface{} { return []interface{}{"http://h/p?k=&j=abc"} },
+			func(a []interface{}) (string, []string) { return errText(valid.NewVUrl().Valid(a[0])), nil }, nil},
 		{"two VVar objects alive together", func() []interface{} { return []interface{}{"abc"} },
 			func(a []interface{}) (string, []string) {
 				return recovered(func() error {
